@@ -65,8 +65,15 @@ def algo_name(c, h):
 def build_model_driver():
     """compile Struct/JobSem.v, extract it into .build/ocaml and build the OCaml driver"""
     ok, out = common.coq_make(["Struct/JobSem.vo"])
+    vsrc = os.path.join(common.COQDIR, "Struct", "JobSem.v")
+    vobj = vsrc + "o"
     if not ok:
-        raise RuntimeError("coq build of Struct/JobSem.v failed:\n" + out[-3000:])
+        # the shared Makefile can be broken by an unrelated entry of _CoqProject (a file another
+        # check lists but has not written yet): compile the one file directly
+        if not (os.path.exists(vobj) and os.path.getmtime(vobj) >= os.path.getmtime(vsrc)):
+            p = common.run(["timeout", "900", "coqc", "-Q", ".", "IMB", "Struct/JobSem.v"], cwd=common.COQDIR, timeout=930)
+            if p.returncode != 0:
+                raise RuntimeError("coq build of Struct/JobSem.v failed:\n" + out[-1500:] + p.stdout[-1500:] + p.stderr[-1500:])
     od = os.path.join(common.BUILD, "ocaml")
     os.makedirs(od, exist_ok=True)
     os.makedirs(os.path.join(common.BUILD, "bin"), exist_ok=True)
@@ -497,19 +504,28 @@ def classify(rec, it, m):
         # mix) but the paths disagree among themselves: the minority outcomes are the suspects
         groups_sorted = sorted(groups, key=lambda g: -len(g["paths"]))
         ref = groups_sorted[0]
-        for g in groups_sorted[1:]:
-            o, r = g["outcome"], ref["outcome"]
+        r = ref["outcome"]
+
+        def fld_of(o):
             if o.get("status") != r.get("status"):
-                fld = "status"
-            elif o.get("tag") != r.get("tag") and o.get("dst_digest", o.get("dst")) == r.get("dst_digest", r.get("dst")):
-                fld = "tag-unspec" if m is not None else "tag"
+                return "status"
+            if o.get("tag") != r.get("tag") and o.get("dst_digest", o.get("dst")) == r.get("dst_digest", r.get("dst")):
+                return "tag-unspec" if m is not None else "tag"
+            return "dst-unmodelled" if m is None else "dst"
+        byf = collections.OrderedDict()
+        for g in groups_sorted[1:]:
+            byf.setdefault(fld_of(g["outcome"]), []).append(g)
+        for fld, gs in byf.items():
+            paths = [p for g in gs for p in g["paths"]]
+            if len(gs) > 1:
+                # many different values (left-over register contents and the like): one disagreement
+                vs, es, bs = "mixed", "mixed", "any"
             else:
-                fld = "dst-unmodelled" if m is None else "dst"
-            vs, es, bs = path_classes(g["paths"], allp)
+                vs, es, bs = path_classes(paths, allp)
             a = dict(base)
             a.update({"class": "b", "vars": vs, "eps": es, "batch": bs, "field": fld})
-            out.append({"attrs": a, "id": it["id"], "paths": g["paths"], "outcome": g["outcome"], "n_paths": len(allp),
-                        "modelled": m is not None, "majority_outcome": ref["outcome"]})
+            out.append({"attrs": a, "id": it["id"], "paths": paths, "outcome": gs[0]["outcome"], "n_paths": len(allp),
+                        "modelled": m is not None, "majority_outcome": r, "distinct_outcomes": len(groups)})
     return out
 
 
@@ -1446,7 +1462,7 @@ def gen_gcm(g, tier, c=5, h=9):
             g.add(c, h, "%s/aad" % name, dir=1, key=g.rnd(kl), iv=g.rnd(12), aad=g.rnd(aadl), msg=g.rnd(n), clen=n, hlen=n,
                   tag=[16, 12, 8][j % 3])
             j += 1
-        for ivl in list(range(1, 65 if tier != "quick" else 34)) + [64, 128, 255, 256]:
+        for ivl in (list(range(1, 65 if tier != "quick" else 34)) + [64, 128, 255, 256]) if c == 5 else ():
             n = [0, 1, 16, 33, 80, 256, 400][j % 7]
             g.add(c, h, "%s/ivlen" % name, dir=1, key=g.rnd(kl), iv=g.rnd(ivl), aad=g.rnd(j % 21), msg=g.rnd(n), clen=n, hlen=n,
                   tag=[16, 12, 8, 4][j % 4], ivcls="len%d" % ivl)
@@ -1458,6 +1474,8 @@ def gen_gcm(g, tier, c=5, h=9):
         # non-12-byte IVs: J0 is pseudo-random, many short messages make the counter low byte carry
         for t in range(24 if tier == "quick" else 200):
             n = 16 * (17 + t % 20) + t % 16
+            if c != 5:
+                break
             g.add(c, h, "%s/j0-random" % name, dir=1, key=g.rnd(kl), iv=g.rnd(16 if t % 2 else 8), aad=g.rnd(t % 17), msg=g.rnd(n),
                   clen=n, hlen=n, tag=16, ivcls="j0rnd")
             j += 1
